@@ -79,6 +79,19 @@ def td_axioms():
     ]
 
 
+def inst(d, b, r):
+    """Ground instances of S1, S2, the EXACT definition and TD2/TD4 at SEC(d, b, r): they are
+    instances of the quantified hypotheses, added so that the solver need not find them."""
+    s, e = SEC(d, b, r), EXACT(d, b, r)
+    valid = z3.And(d >= 0, b > 0, r >= 1)
+    t = TDf(s)
+    bound = HALF + SLACK
+    return [z3.Implies(valid, z3.And(s - e <= 5 * U * e, e - s <= 5 * U * e, s >= 0, z3.Implies(d == 0, s == 0),
+                                      EXACT(d + 1, b, r) == e + RATE(b, r), RATE(b, r) > 0, e >= 0, z3.Implies(d == 0, e == 0))),
+            z3.And(z3.ToReal(t) - 1000000 * s <= bound, 1000000 * s - z3.ToReal(t) <= bound),
+            z3.Implies(s >= 0, t >= 0)]
+
+
 def gov_def(tick, n, t, g):
     j = z3.Int("gj")
     return z3.And(0 <= g, g < n, tick[g] <= t, z3.ForAll([j], z3.Implies(z3.And(g < j, j < n), tick[j] > t)))
@@ -143,9 +156,11 @@ def register(reg):
             ]
         # rate >= 2e-6 follows from bpm*res <= 3e7 by the definition of RATE = 60/(bpm*res)
         H += [z3.Implies(bpm[ga] * z3.ToReal(res) <= 30000000, RATE(bpm[ga], res) * 1000000 >= 2)]
+        H += inst(b - 1 - tick[ga], bpm[ga], res) + inst(b - tick[ga], bpm[ga], res) + inst(b - tick[gb], bpm[gb], res)
         same = H + [ga == gb]
         # b is a tempo change: TS(b) = ts[gb] = ts[ga] + TD(SEC(tick[gb]-tick[ga], bpm[ga])) by the WF chain
-        boundary = H + [gb == ga + 1, tick[gb] == b]
+        boundary = H + [gb == ga + 1, tick[gb] == b,
+                        z3.Implies(z3.And(0 <= ga, ga < n - 1), ts[ga + 1] == ts[ga] + TDf(SEC(tick[ga + 1] - tick[ga], bpm[ga], res)))]
         goal = TS(tick, ts, bpm, res, b - 1, ga) < TS(tick, ts, bpm, res, b, gb)
         return [("cases-exhaustive", H, z3.Or(ga == gb, z3.And(gb == ga + 1, tick[gb] == b))),
                 ("same-segment", same, goal),
